@@ -34,6 +34,9 @@ def make [Inhabited α] (len cap : Int) : Option (GoSlice α) :=
 /-- `append(s, v)` -/
 def append (s : GoSlice α) (v : α) : GoSlice α :=
   ⟨s.arr.push v, if s.arr.size < s.cap then s.cap else s.arr.size + 1⟩
+/-- `append(s, t...)` -/
+def appendAll (s t : GoSlice α) : GoSlice α :=
+  ⟨s.arr ++ t.arr, if s.arr.size + t.arr.size ≤ s.cap then s.cap else s.arr.size + t.arr.size⟩
 /-- `copy(dst, src)`: the first `min(len(dst), len(src))` elements -/
 def copy (dst src : GoSlice α) : GoSlice α :=
   { dst with arr := Array.ofFn (n := dst.arr.size) (fun i => if h : i.val < src.arr.size then src.arr[i.val] else dst.arr[i]) }
